@@ -7,7 +7,7 @@ set -u
 ID="$1"; WT="$2"; N="$3"; shift 3
 CHECKS="$ID $*"
 S="$WT/seeded/$N"
-OUT="/verif/seeded/$ID-$N"
+OUT="/verif/seeded/$ID-${SEEDTAG:-}$N"
 export CARGO_NET_OFFLINE=true CARGO_TARGET_DIR="$WT/target"
 [ -f "$S/patch.diff" ] || { echo "no patch at $S"; exit 2; }
 cd "$WT" && git checkout -q -- . 
